@@ -50,7 +50,7 @@ def waveforms():
     }
 
 
-CHANNELS = ["global", "local", "dmm", "global+local", "xy"]
+CHANNELS = ["global", "local", "local_unordered", "dmm", "global+local", "xy"]
 NOISES = [
     None,
     {"kind": "amplitude", "z": [-1.0]},
@@ -59,6 +59,8 @@ NOISES = [
     {"kind": "detuning", "z": [1.5]},
     {"kind": "spam", "mask": [0, 1, 0]},
     {"kind": "spam", "mask": [1, 0, 1]},
+    # position noise together with a finite laser waist: the damping of the amplitude follows the displaced atoms, so every trajectory has its own samples
+    {"kind": "register_waist", "z": [[0.5], [-1.0], [2.0]], "n_trajectories": 2},
 ]
 DTS = {"quick": [0.25, 0.5, 0.7, 1, 2.5, 10, T], "thorough": [0.1, 0.25, 0.3, 0.5, 0.7, 1, 2.5, 3, 7, 10, 16, T, 2 * T]}
 
@@ -68,6 +70,7 @@ def bounds(tier, seed):
         "waveforms": list(waveforms()),
         "channels": CHANNELS,
         "noise": NOISES,
+        "n_trajectories": "1; 2 for position noise with a finite laser waist (each trajectory compared with its own Pulser samples)",
         "modulation": [False, True],
         "dt": DTS[tier],
         "eval_sets": "[1], [(T-0.5)/T, 1], [(T-0.25)/T], [0, 1/3, 1], [(T-1.5)/T, (T-0.3)/T]",
@@ -94,6 +97,12 @@ def _spec(case):
     if ch == "local":
         spec["basis"] = "rydberg_local"
         spec["pulses"].append({"amp": amp, "det": det, "phase": 0.4, "targets": [1]})
+    if ch == "local_unordered":
+        # atoms are first addressed against the register order (b, then c) and atom a is never addressed
+        spec["basis"] = "rydberg_local"
+        spec["initial_target"] = 2
+        spec["pulses"].append({"amp": amp, "det": det, "phase": 0.4})
+        spec["pulses"].append({"amp": ["ramp", 24, 1.0, 3.0], "det": ["const", 24, 2.0], "phase": 1.1, "targets": [0]})
     if ch == "global+local":
         spec["local_channel"] = {"target": 2}
         spec["pulses"].append({"amp": ["ramp", 24, 1.0, 3.0], "det": ["const", 24, 2.0], "phase": 1.1, "ch": "loc"})
@@ -113,6 +122,9 @@ def _noise(nz):
         return pulser.NoiseModel(detuning_sigma=0.5), {"normal": [nz["z"]] * 8}
     if nz["kind"] == "spam":
         return pulser.NoiseModel(state_prep_error=0.3, p_false_pos=0.0, p_false_neg=0.0), {"uniform": [seams.bad_mask_uniform(nz["mask"])]}
+    if nz["kind"] == "register_waist":
+        nm = pulser.NoiseModel(laser_waist=20.0, temperature=50.0, trap_waist=1.0, trap_depth=150.0, disable_doppler=True)
+        return nm, {"normal": [z * 9 for z in nz["z"]] * 4}
     raise ValueError(nz)
 
 
@@ -135,6 +147,8 @@ def run_case(case):
     chk = 0.0
     for dt, ev in itertools.product(DTS[case["tier"]], _evalsets(Tdur)):
         kw = {"noise_model": nm} if nm is not None else {}
+        if NOISES[case["noise"]] and "n_trajectories" in NOISES[case["noise"]]:
+            kw["n_trajectories"] = NOISES[case["noise"]]["n_trajectories"]
         cfg = sv.SVConfig(dt=dt, observables=[sv.Occupation(evaluation_times=ev)], with_modulation=case["mod"], log_level=logging.CRITICAL, gpu=False, **kw)
         label = f"wf={case['wf']} channel={case['channel']} noise={NOISES[case['noise']]} mod={case['mod']} dt={dt} eval={ev}"
         try:
@@ -145,6 +159,8 @@ def run_case(case):
         except Exception as e:
             return result(False, sig=f"raises|{type(e).__name__}", msg=f"{label}: {type(e).__name__}: {e}", outcome="raise")
         states += 1
+        if len(sds) != len(nss) or len(sds) != kw.get("n_trajectories", 1):
+            return result(False, sig="trajectory-count", msg=f"{label}: {len(sds)} SequenceData for {len(nss)} Pulser noisy samples", outcome="count")
         for sd, ns in zip(sds, nss):
             transitions += 1
             loc = ns.samples.to_nested_dict(all_local=True)["Local"]["XY" if case["channel"] == "xy" else "ground-rydberg"]
